@@ -621,6 +621,49 @@ def run_check(tier, seed, t0):
                              str(vals)[:150], str(ref)[:150]), {},
                             tags={"kind": "form", "form": fname, "reuse": reuse,
                                   "source": "cubeset_forms"}), {}))
+        # a cube set whose second member is a single-column filter cube (the server leaves out
+        # the rows without respondents; the library restores them IN the caller's response):
+        # further sets over the same response objects must agree with a set over pristine copies
+        sF, rF, _, e3 = multicube.records_for(
+            _scenario("fc_text", [_cat("A", 5, miss=[5], subtype="text", ids=[0, 1, 2, 3, -1])],
+                      weighted=False, weights=[1]), "c06", seed + 9, 8, min_resp=1)
+        if not e3:
+            for ra, rb in zip(rF[::2], rF[1::2]):
+                r0 = envelope.build_response(sF, ra, configs.DEFAULT)
+                r1 = envelope.build_response(sF, rb, configs.DEFAULT)
+                els = r1["result"]["dimensions"][0]["type"]["elements"]
+                keep = [i for i, (el, n) in enumerate(zip(els, r1["result"]["counts"]))
+                        if el["missing"] or n > 0]
+                r1["result"]["dimensions"][0]["type"]["elements"] = [els[i] for i in keep]
+                r1["result"]["counts"] = [r1["result"]["counts"][i] for i in keep]
+                for m in r1["result"]["measures"].values():
+                    m["data"] = [m["data"][i] for i in keep]
+                r1["result"]["is_single_col_cube"] = True
+
+                def fc_vals(a, b):
+                    cs = CubeSet([a, b], [{}, {}], None, 0)
+                    return [[(relation_to_py(p.counts), relation_to_py(p.unweighted_bases),
+                              list(p.row_labels)) for p in ps] for ps in cs.partition_sets]
+                try:
+                    ref = fc_vals(copy.deepcopy(r0), copy.deepcopy(r1))
+                except Exception as e:  # noqa
+                    ref = "raise %r" % (e,)
+                a, b = copy.deepcopy(r0), copy.deepcopy(r1)
+                for nth in (1, 2, 3):
+                    try:
+                        vals = fc_vals(a, b)
+                    except Exception as e:  # noqa
+                        vals = "raise %r" % (e,)
+                    n_forms += 1
+                    if not _same(vals, ref):
+                        mismatches.append((Mismatch(
+                            prop_id, None,
+                            "cube set with a single-column filter cube, set number %d over the same "
+                            "response objects: %s, over pristine copies: %s" %
+                            (nth, str(vals)[:150], str(ref)[:150]), {},
+                            tags={"kind": "form", "form": "dict", "reuse": nth > 1,
+                                  "source": "filter_cube_reuse"}), {}))
+                        break
     except Exception as e:  # noqa
         print("MACHINERY-ERROR: forms check failed: %r" % (e,), file=sys.stderr)
         return 2
